@@ -342,6 +342,7 @@ package openflow13
 // C04 instance lemmas (zz_lemmas_verif.go): multipart replies with two records. The requires clauses describe the
 // conformant message (OpenFlow 1.3.5 sections 7.3.5, 7.2.1, 7.3.5.2); everything not mentioned is symbolic.
 //@ func lemmaParsePortDescReply(b) (message, err) [C04 C05]
+//@   bounded a port-description reply with exactly two ports
 //@   inlinecalls
 //@   allowglobals
 //@   unroll 4
@@ -353,6 +354,7 @@ package openflow13
 // two flow-stats records: the first with an in_port match (padded to 16) and a goto-table instruction (72 bytes),
 // the second with an empty match (8) and no instruction (56 bytes)
 //@ func lemmaParseFlowStatsReply(b) (message, err) [C04 C05]
+//@   bounded a flow-stats reply with exactly two records (one match field + one instruction; empty)
 //@   inlinecalls
 //@   allowglobals
 //@   unroll 4
@@ -387,6 +389,7 @@ package openflow13
 
 // hello (section 7.5.1): a receiver skips unknown elements by their length rounded up to 8 and still sees what follows
 //@ func lemmaParseHelloUnknownThenBitmap(b) (message, err) [C04 C05]
+//@   bounded a hello with one unknown element (length 5..8) followed by one version bitmap
 //@   inlinecalls
 //@   allowglobals
 //@   unroll 4
